@@ -620,8 +620,10 @@ class MyPyAstVisitor:
 
             # We have to sort the list for the snapshot tests
             return_stmt_types = list(types)
+            # The serialized type is the second key, so that the order is total (several tuples of the same length or
+            # several types with the same name must not keep the order of the set)
             return_stmt_types.sort(
-                key=lambda x: (x.name if isinstance(x, sds_types.NamedType) else str(len(x.types))),
+                key=lambda x: (x.name if isinstance(x, sds_types.NamedType) else str(len(x.types)), str(x.to_dict())),
             )
 
             return sds_types.TupleType(types=return_stmt_types)
